@@ -19,6 +19,9 @@ claimed = {
  "C06": ("Deductive proof on the real decoders that acceptance is exactly the stated predicate: err == nil <=> (length, canonical X (< p), y^2 = (a x^2 - 1)/(d x^2 - 1) is a square, Legendre(1 - a x^2) = 1, and for the uncompressed form the Y bytes are the canonical encoding of the lexicographically largest root); accepted input re-encodes to the same bytes; on error the receiver is unchanged; no panic for any length. computeY / GetPointFromX proved against the curve equation.",
          "Assumed: gnark-crypto field element methods implement F_p incl. canonical decoding and Legendre (A4); SqrtPrecomp's specification (nil iff non-square) is decided under C17; Euler criterion, uniqueness of the largest root, the subgroup criterion meaning 'order divides r' (A3); generator and solvers.",
          "DESIGN.md §8 C06", "contract-based deductive verification: acceptance-set contracts over an abstract field, discharged by z3/cvc5"),
+ "C10": ("Deductive proof over a ghost reader/writer model (stream content, position, failure offset as ghost state): MultiProof.Read returns nil exactly when the stream holds exactly 576 more bytes, the reader does not fail, the 17 point chunks are valid canonical subgroup encodings and the scalar chunk is < r; IPAProof.Read likewise for 544 bytes; ReadPoint/ReadScalar proved against the decoders' contracts; any chunking a well-behaved reader may choose is covered because the contract of Read/ReadAtLeast is nondeterministic in n; Write returns an error whenever any of its Write calls fails and otherwise emits 32 bytes per field (call count and length proved).",
+         "Assumed: io.ReadAtLeast / io.Reader / encoding/binary.Write contracts for well-behaved readers and writers (A4); the decoders' dependencies as in C06/C16; not proved: byte content of Write and the Write/Read round trip (only length, call count and fault propagation are), IPAProof.Equal/MultiProof.Equal.",
+         "DESIGN.md §8 C10", "contract-based deductive verification with ghost stream state, discharged by z3/cvc5"),
 }
 hooks=subprocess.run(['git','-C','/repo','log','--format=%H %s'],capture_output=True,text=True).stdout.strip().split('\n')
 hook_commits=[l.split()[0] for l in hooks if 'verif hook' in l]
